@@ -50,6 +50,33 @@ pub fn build_chain_model(raw: &[(u16, u8, u16)], extra: (u16, i8, i8)) -> (Model
         1 => n - 1 - next(n / 20 + 1),
         _ => next(n),
     };
+    // switches: a Boolean which, when true, forces a variable near the top of the chain to 0 (or one near the
+    // bottom to 1). Such a switch conflicts with the far end of a chain which an earlier decision at the other
+    // end set off, i.e. with a predicate whose reasons go back hundreds of propagation steps to a decision
+    // outside of the conflict - the situation in which depth-limited procedures of conflict analysis matter.
+    let mut vars = vars;
+    let mut witness = witness;
+    let switches = 2 + next(6);
+    for _ in 0..switches {
+        let sw = vars.len();
+        vars.push(VarDecl::Bool);
+        let (target, c) = if next(2) == 0 {
+            let hi = n - 1 - next(n / 25 + 1);
+            (hi, Cons::LinLe { terms: vec![Term::plain(hi)], rhs: 0 })
+        } else {
+            let lo = next(n / 25 + 1);
+            (lo, Cons::LinLe { terms: vec![Term { var: lo, scale: -1, offset: 0 }], rhs: -1 })
+        };
+        let holds = sem::holds(&c, &{
+            let mut w = witness.clone();
+            w.push(0);
+            w
+        });
+        let _ = target;
+        // the planted value of the switch: true whenever the planted assignment allows it (three times out of four)
+        witness.push((holds && next(4) != 0) as i32);
+        cons.push(Posted { cons: c, mode: Mode::ImpliedBy(Lit { var: sw, neg: false }), tag: false });
+    }
     let k = 10 + next(50);
     for _ in 0..k {
         match next(3) {
